@@ -8,7 +8,8 @@ warnings.filterwarnings("ignore")
 req = json.load(sys.stdin)
 rng = random.Random(req["seed"])
 tier = req["tier"]
-install_patches()
+# NOTE: the translator's patches are installed only AFTER every device has been executed (second pass below): the devices
+# must run on the unmodified package (with the patches active default.tensor takes a different code path for PauliRot)
 G1 = ["RX", "RY", "RZ", "PhaseShift", "Hadamard", "PauliX", "PauliY", "PauliZ", "S", "T", "SX"]
 G2 = ["CNOT", "CZ", "CY", "SWAP", "CRX", "CRY", "CRZ", "IsingXX", "IsingZZ", "ControlledPhaseShift", "ISWAP"]
 C1 = ["Hadamard", "PauliX", "PauliY", "PauliZ", "S", "SX"]
@@ -50,6 +51,7 @@ def jsonable(x):
     return {"re": a.astype(float).tolist()}
 
 
+pending = []
 DEVICES = ["default.mixed", "reference.qubit", "default.tensor:mps", "default.tensor:tn", "default.clifford", "null.qubit", "default.qubit"]
 runs = []
 ncirc = 40 if tier == "quick" else 300
@@ -70,10 +72,22 @@ for ci in range(ncirc):
         U3 = np.kron(np.kron(qp.matrix(qp.RX(A1, 0)), np.eye(2)), qp.matrix(qp.RY(A2, 0))) @ qp.matrix(qp.Toffoli([0, 1, 2])) \
             @ np.kron(np.kron(np.eye(2), qp.matrix(qp.S(0))), qp.matrix(qp.RX(A2, 0)))
         ops.insert(4, qp.QubitUnitary(U3, wires=[3, "a", "b"]))
+        # Pauli rotations on three wires given in a non-ascending device order (devices with an MPO kernel must place each letter on its site)
+        ops.insert(2, qp.PauliRot(A1, "XYZ", wires=[3, "a", "b"]))
+        ops.insert(3, qp.MultiRZ(A2, wires=["a", "b", 3]))
+        ops.insert(9, qp.PauliRot(A2, "YXX", wires=["a", 3, "b"]))
         # first-order Trotter product of non-commuting terms (devices with their own kernel for it must keep the factor order);
         # coefficients are Pythagorean angles so that every factor exp(-i c t/n P) is exactly representable
         ops.append(qp.TrotterProduct(qp.sum(qp.s_prod(A1, qp.X("b")), qp.s_prod(A2, qp.Z("b") @ qp.Z(3)), qp.s_prod(A1, qp.Y(3)), qp.s_prod(A2, qp.X("a") @ qp.Y("b"))),
                                      time=1.0, n=2, order=1))
+    if len(DEVICES) <= ci < 2 * len(DEVICES) and not clifford:
+        # second fixed corpus circuit: short, so that a three-wire Pauli rotation / doubly controlled phase on non-ascending
+        # device sites acts on a (nearly) product state (regression: default.tensor's MPO kernel)
+        import math as _m
+        nw, labels = 3, ["b", 3, "a"]
+        A1, A2 = 2 * _m.atan2(4, 3), 2 * _m.atan2(3, 4)
+        ops = [qp.Hadamard("b"), qp.RY(A1, 3), qp.PauliRot(A1, "XYZ", wires=[3, "a", "b"]), qp.RX(A2, "a"),
+               qp.ctrl(qp.PhaseShift(A2, "b"), control=[3, "a"]), qp.MultiRZ(A1, wires=["a", "b", 3])]
     ms, mdesc = [], []
     for _ in range(rng.randint(1, 2)):
         r = rng.random()
@@ -88,15 +102,16 @@ for ci in range(ncirc):
                 ms.append(qp.expval(o)); mdesc.append({"kind": "expval", "word": word, "wires": ws})
             else:
                 ms.append(qp.var(o)); mdesc.append({"kind": "var", "word": word, "wires": ws})
+    if ci < 2 * len(DEVICES) and not clifford:
+        # corpus circuits are measured on every wire (a random one- or two-wire observable can be blind to a misplaced factor)
+        ms, mdesc = [], []
+        for word, ws in ((["Z"], ["b"]), (["X"], [3]), (["Y"], ["a"]), (["Y", "Z"], ["a", "b"]), (["X", "X"], [3, "a"])):
+            o = qp.prod(*[getattr(qp, "Pauli" + ch)(w) for ch, w in zip(word, ws)]) if len(ws) > 1 else getattr(qp, "Pauli" + word[0])(ws[0])
+            ms.append(qp.expval(o)); mdesc.append({"kind": "expval", "word": word, "wires": ws})
     run = {"labels": labels, "dev_wires": labels, "device": devname, "ops": [repr(o) for o in ops], "meas": mdesc, "status": "ok", "n": nw}
     runs.append(run)
+    pending.append((run, ops, labels))
     try:
-        # reference circuit: a TrotterProduct is replaced by its documented factor sequence (each factor is exactly representable,
-        # the product is not recognisable as a constant matrix)
-        ref = []
-        for o in ops:
-            ref += list(o.decomposition()) if o.name == "TrotterProduct" else [o]
-        run["circuit"] = exact_circuit_gallina(ref, labels)
         if devname.startswith("default.tensor"):
             dev = qp.device("default.tensor", wires=labels, method=devname.split(":")[1], **({"max_bond_dim": 64} if devname.endswith("mps") else {}))
         else:
@@ -115,4 +130,20 @@ for ci in range(ncirc):
         run["status"], run["detail"] = "notex", str(e)[:200]
     except Exception as e:
         run["status"], run["detail"] = "error", f"{type(e).__name__}: {str(e)[:300]}"
+# second pass: exact reference circuits for Coq (translator patches active from here on)
+install_patches()
+for run, ops, labels in pending:
+    if run["status"] != "ok":
+        continue
+    try:
+        # reference circuit: a TrotterProduct is replaced by its documented factor sequence (each factor is exactly representable,
+        # the product is not recognisable as a constant matrix)
+        ref = []
+        for o in ops:
+            ref += list(o.decomposition()) if o.name == "TrotterProduct" else [o]
+        run["circuit"] = exact_circuit_gallina(ref, labels)
+    except NotExtractable as e:
+        run["status"], run["detail"] = "notex", str(e)[:200]
+    except Exception as e:
+        run["status"], run["detail"] = "notex", f"reference: {type(e).__name__}: {str(e)[:300]}"
 print(json.dumps({"runs": runs}))
